@@ -1,0 +1,32 @@
+//go:build verif
+
+// Contracts for package message (comment-only; read by /verif/govc).
+
+package message
+
+//@ func (*MessageRaw).GetID
+//@   requires m != nil
+//@   ensures  res == m.ID
+//@   modifies nothing
+
+//@ func (*ReadWriter).CRCExtra
+//@   requires rw != nil
+//@   ensures  res == rw.crcExtra
+//@   modifies nothing
+
+//@ func (*ReadWriter).Read returns (msg, err)
+//@   requires rw != nil && m != nil
+//@   ensures  (err == nil) == ufDecodable(ufCodecId(rw), m.Payload, isV2)
+//@   ensures  err == nil ==> msg != nil
+//@   ensures  err != nil ==> msg == nil
+//@   modifies nothing
+//@   trusted
+//@   assumes  decoding is a function of (codec, payload bytes, version); "modifies nothing" is the C04 frame claim, decided there
+
+//@ func (*ReadWriter).Write
+//@   requires rw != nil && msg != nil
+//@   ensures  res != nil && freshPtr(res) && res.ID == msg.GetID()
+//@   ensures  len(res.Payload) <= 255 && freshBytes(res.Payload)
+//@   modifies nothing
+//@   trusted
+//@   assumes  msg has the dynamic type the codec was initialised with (otherwise reflect panics; the public API does not check it)
